@@ -8,6 +8,12 @@
      "lin"      type linear: every value and derivative (LinValue / LinDeriv, also beyond the input
                 range), i.e. derivative output = derivative of value output exactly;
      "ident"    all types, output grid = input grid (uniform): values and flags returned unchanged;
+     "identdec" the same identity clause on LONG DECIMAL tables (x = k/10 or k/20, i.e. steps 0.05, 0.1, 0.2;
+                41..81 points; negative, zero-crossing and positive abscissae; flag transitions at early
+                and late points and an alternating pattern): the output grid is produced by repeated
+                addition of a step that is not exact in binary, so the flag loop's comparison tolerance
+                is what keeps the flags in place; values returned (all types), flags kept (value and
+                derivative table);
      "dov"      all types on the quarter-point grid, optionally one interval WIDER than the input on both
                 sides: derivative-of-value (also in the two extrapolation regions) and knot-continuity
                 relations between ROWS of the two output files; with periodic = TRUE the run uses
@@ -15,7 +21,7 @@
      "fitline"  straight-line data fitted on a coarser --fitgrid: output on the line.            *)
 EXTENDS SplineRel, TLC, Json, IOUtils
 
-CONSTANTS NSet, GapSet, YSeeds, OffSet, Q, ThinLin, ThinIdent, ThinDov, ThinFit, Emit
+CONSTANTS NSet, GapSet, YSeeds, OffSet, Q, ThinLin, ThinIdent, ThinDov, ThinFit, ThinDec, LongN, Emit
 VARIABLES c, ph
 vars == <<c, ph>>
 
@@ -52,6 +58,22 @@ Init == /\ ph = 0
                 /\ (t = "cubic" => n >= 3) /\ (t = "akima" => n >= 4)
                 /\ c = [fam |-> "ident", type |-> t, K |-> UKnots(o, g, n), Y |-> y, F |-> f,
                         grid |-> <<Q * o, Q * g, Q * (o + (n - 1) * g)>>, per |-> FALSE]
+           \/ \E m \in LongN, g \in {1, 2}, xd \in {10, 20}, pos \in {-1, 0, 1}, pat \in 0..3, t \in {"linear", "cubic", "akima"} :
+                \* decimal lattice (unit 1/xd); pos: all abscissae negative / zero-crossing / positive
+                LET o0 == IF pos < 0 THEN -(m - 1) * g - 3 ELSE IF pos = 0 THEN -((m - 1) \div 2) * g ELSE 2
+                    KK == [i \in 1..m |-> o0 + (i - 1) * g]
+                IN
+                /\ n = 2 /\ f[1] # f[2] /\ o = 0                 \* two different flags A = f[1], B = f[2]
+                /\ Chosen(Hash(n, y, f, m + 3 * g + xd + pos + 7 * pat
+                                        + (IF t = "cubic" THEN 1 ELSE IF t = "akima" THEN 2 ELSE 0)), ThinDec)
+                /\ c = [fam |-> "identdec", type |-> t, K |-> KK, Y |-> YOf(sd, m), xd |-> xd,
+                        \* pat 0: A..A B (last point only)   1: A B..B (from the 2nd point)
+                        \*     2: A A A B..B A A (early and late transition)   3: alternating
+                        F |-> [i \in 1..m |-> IF pat = 0 THEN (IF i = m THEN f[2] ELSE f[1])
+                                              ELSE IF pat = 1 THEN (IF i = 1 THEN f[1] ELSE f[2])
+                                              ELSE IF pat = 2 THEN (IF i <= 3 \/ i >= m - 1 THEN f[1] ELSE f[2])
+                                              ELSE f[(i % 2) + 1]],
+                        grid |-> <<KK[1], g, KK[m]>>, per |-> FALSE]
            \/ \E g \in GapSet, t \in {"linear", "cubic", "akima"}, p \in BOOLEAN, w \in {0, 1} :
                 \* w = 1: output grid one interval wider than the input on both sides (extrapolation regions)
                 /\ Chosen(Hash(n, y, f, 7 + g + (IF t = "cubic" THEN 1 ELSE 2) + (IF p THEN 3 ELSE 0) + 5 * w), ThinDov)
@@ -110,9 +132,11 @@ Theorems == ph = 1 =>
   /\ IsGrid(K) /\ GridTheorems(Mn, Mx, H)
   /\ IntegerGrid(Mn, Mx, H) /\ \A i \in 1..Cnt : RatEq(TG[i], Rat(G[i], 1))
   /\ FlagTheorems(K, F, TG)                                    \* the two loops compute SpecFlag
-  /\ c.fam = "ident" => /\ Cnt = N /\ \A i \in 1..N : G[i] = K[i]
-                        /\ \A i \in 1..N : ExpFlags[i] = F[i]  \* flags kept on the input grid
-                        /\ \A i \in 1..N : RatEq(LinValue(K, Y, G[i]), Rat(Y[i], 1))
+  /\ c.fam \in {"ident", "identdec"} =>
+       /\ Cnt = N
+       /\ \A i \in 1..N : G[i] = K[i]
+       /\ \A i \in 1..N : ExpFlags[i] = F[i]                  \* flags kept on the input grid
+       /\ \A i \in 1..N : RatEq(LinValue(K, Y, G[i]), Rat(Y[i], 1))
   /\ c.fam = "dov" => LET w == IF Wide THEN 4 ELSE 0 IN
                       Cnt = 4 * (N - 1) + 1 + 2 * w /\ \A i \in 1..N : G[4 * (i - 1) + 1 + w] = K[i]
   /\ c.fam = "fitline" => /\ IsGrid(SplineGrid(c.fit[1], c.fit[3], c.fit[2]))
@@ -122,9 +146,10 @@ Theorems == ph = 1 =>
 Vector == (Emit /\ ph = 1) =>
   PrintT(ToJson([fam |-> c.fam, type |-> c.type, k |-> K, y |-> Y, f |-> F, grid |-> c.grid,
                  fit |-> IF c.fam = "fitline" THEN c.fit ELSE <<>>, per |-> c.per,
+                 xd |-> IF c.fam = "identdec" THEN c.xd ELSE 16,
                  n |-> Cnt, x |-> G, fl |-> ExpFlags,
                  val |-> FlatRat(IF c.fam = "lin" \/ (c.fam = "ident" /\ c.type = "linear") THEN LinVals
-                                 ELSE IF c.fam = "ident" THEN IdVals
+                                 ELSE IF c.fam \in {"ident", "identdec"} THEN IdVals
                                  ELSE IF c.fam = "fitline" THEN LineVals ELSE <<>>),
                  der |-> FlatRat(IF c.fam = "lin" \/ (c.fam = "ident" /\ c.type = "linear") THEN LinDers
                                  ELSE IF c.fam = "fitline" THEN LineDers ELSE <<>>),
